@@ -149,3 +149,132 @@ pub unsafe extern "C" fn clock_gettime(clk: libc::clockid_t, ts: *mut libc::time
 pub fn now_ns() -> u64 {
     VIRT_NS.load(Ordering::SeqCst)
 }
+
+// ---------------------------------------------------------------------------
+// Scripted ("gated") inner service: a call never finishes by itself; the script
+// completes the n-th call made with request `req` through `complete(req, n, outcome)`.
+use std::collections::HashMap;
+use std::sync::atomic::AtomicI64;
+use std::sync::Mutex;
+use tokio::sync::oneshot;
+
+#[derive(Debug, Clone, Copy, PartialEq)]
+pub enum Outcome {
+    Ok(i128),
+    Err(i128),
+    Panic,
+}
+
+#[derive(Default)]
+struct Gate {
+    tx: Option<oneshot::Sender<Outcome>>,
+    rx: Option<oneshot::Receiver<Outcome>>,
+}
+
+#[derive(Default)]
+pub struct InnerShared {
+    gates: Mutex<HashMap<(i128, u32), Gate>>,
+    counts: Mutex<HashMap<i128, u32>>,
+    pub inflight: AtomicI64,
+    /// (request, in-flight count including this call) for every inner call started
+    pub starts: Mutex<Vec<(i128, i64)>>,
+    /// requests whose inner future ran to completion (not dropped)
+    pub finished: Mutex<Vec<i128>>,
+    /// requests whose inner future was dropped before completing
+    pub dropped: Mutex<Vec<i128>>,
+}
+
+impl InnerShared {
+    fn gate(&self, key: (i128, u32)) -> std::sync::MutexGuard<'_, HashMap<(i128, u32), Gate>> {
+        let mut g = self.gates.lock().unwrap();
+        g.entry(key).or_insert_with(|| {
+            let (tx, rx) = oneshot::channel();
+            Gate { tx: Some(tx), rx: Some(rx) }
+        });
+        g
+    }
+    /// Complete the n-th call made with request `req` (may be called before that call starts).
+    pub fn complete(&self, req: i128, n: u32, o: Outcome) -> bool {
+        let mut g = self.gate((req, n));
+        match g.get_mut(&(req, n)).unwrap().tx.take() {
+            Some(tx) => {
+                let _ = tx.send(o);
+                true
+            }
+            None => false,
+        }
+    }
+    pub fn take_starts(&self) -> Vec<(i128, i64)> {
+        std::mem::take(&mut *self.starts.lock().unwrap())
+    }
+    pub fn inflight(&self) -> i64 {
+        self.inflight.load(Ordering::SeqCst)
+    }
+}
+
+#[derive(Clone)]
+pub struct GatedInner(pub Arc<InnerShared>);
+
+impl GatedInner {
+    pub fn new() -> Self {
+        GatedInner(Arc::new(InnerShared::default()))
+    }
+}
+
+struct InflightGuard {
+    sh: Arc<InnerShared>,
+    req: i128,
+    done: bool,
+}
+impl Drop for InflightGuard {
+    fn drop(&mut self) {
+        self.sh.inflight.fetch_sub(1, Ordering::SeqCst);
+        if self.done {
+            self.sh.finished.lock().unwrap().push(self.req);
+        } else {
+            self.sh.dropped.lock().unwrap().push(self.req);
+        }
+    }
+}
+
+impl tower::Service<i128> for GatedInner {
+    type Response = i128;
+    type Error = i128;
+    type Future = Pin<Box<dyn Future<Output = Result<i128, i128>> + Send>>;
+    fn poll_ready(&mut self, _cx: &mut Context<'_>) -> Poll<Result<(), i128>> {
+        Poll::Ready(Ok(()))
+    }
+    fn call(&mut self, req: i128) -> Self::Future {
+        let sh = self.0.clone();
+        let n = {
+            let mut c = sh.counts.lock().unwrap();
+            let e = c.entry(req).or_insert(0);
+            let n = *e;
+            *e += 1;
+            n
+        };
+        let seen = sh.inflight.fetch_add(1, Ordering::SeqCst) + 1;
+        sh.starts.lock().unwrap().push((req, seen));
+        let rx = {
+            let mut g = sh.gate((req, n));
+            g.get_mut(&(req, n)).unwrap().rx.take().unwrap()
+        };
+        let guard = InflightGuard { sh, req, done: false };
+        Box::pin(async move {
+            let mut guard = guard; // capture the whole guard (not just its Copy field)
+            let o = rx.await;
+            match o {
+                Ok(Outcome::Ok(v)) => {
+                    guard.done = true;
+                    Ok(v)
+                }
+                Ok(Outcome::Err(e)) => {
+                    guard.done = true;
+                    Err(e)
+                }
+                Ok(Outcome::Panic) => panic!("scripted inner panic"),
+                Err(_) => std::future::pending().await,
+            }
+        })
+    }
+}
